@@ -79,7 +79,8 @@ def run_ext(chk, pid, P):
         for e in g.edges:
             cov[e[1]["a"]] = cov.get(e[1]["a"], 0) + 1
         frac = c.get("edge_sample")       # quick tier: replay a seeded sample of the edges (TLC still checks every edge's properties)
-        filt = (lambda e, rr=random.Random(chk.seed * 7919 + 1): rr.random() < frac) if frac else None
+        probs = c.get("edge_probs", {})      # per-action sampling rates (the property's observation points are kept more often)
+        filt = (lambda e, rr=random.Random(chk.seed * 7919 + 1): rr.random() < probs.get(e[1]["a"], frac)) if frac else None
         walks, plan = graph.plan_tours(g, c["depth"], rng, edge_filter=filt, budget_s=300)
         extra = graph.random_walks(g, c.get("random", 200), c["depth"], rng)
         plans[c["name"]] = plan
